@@ -1,6 +1,7 @@
 package props
 
 import (
+	"bytes"
 	"crypto"
 	"fmt"
 	"math/big"
@@ -504,6 +505,115 @@ func runC07(r *mon.Run) {
 		}
 		_ = secp256k1.ScalarSize
 	})
+	// --- the verifier's hash selector x digest length matrix: every identifier the standard
+	// library defines (linked into this binary or not - the harness links none of x/crypto's),
+	// a signature that IS valid for the digest: accepted iff the length is the size of the
+	// selected hash and at least 32 bytes
+	{
+		lens := []int{16, 20, 28, 31, 32, 33, 36, 47, 48, 49, 63, 64, 65, 96}
+		r.Require("c07:hash-matrix:accept", "c07:hash-matrix:reject")
+		r.Each("c07/hash-matrix", 20*len(lens), func(w *mon.W, i int) {
+			rng := w.Rng
+			h := crypto.Hash(i % 20)
+			l := lens[i/20]
+			d, _ := keyValue(rng)
+			pub := mustPub(oracle.MulG(d))
+			dig := rng.Bytes(l)
+			size := stdHashSize[h]
+			if h == 0 {
+				size = 32
+			}
+			want := l == size && l >= 32
+			w.Case(true, []byte("hash-matrix"), []byte{byte(h), byte(l)})
+			padded := dig
+			if l < 32 {
+				padded = append(append([]byte{}, dig...), make([]byte, 32-l)...)
+			}
+			r0, s0, v0, _, _ := oracle.RFC6979Sign(d, padded)
+			for _, enc := range []secec.SignatureEncoding{secec.EncodingASN1, secec.EncodingCompact, secec.EncodingCompactRecoverable} {
+				var sig []byte
+				switch enc {
+				case secec.EncodingASN1:
+					sig = oracle.DERWriteSig(r0, s0)
+				case secec.EncodingCompact:
+					sig = append(b32(r0), b32(s0)...)
+				default:
+					sig = append(append(b32(r0), b32(s0)...), byte(v0))
+				}
+				got := pub.Verify(dig, sig, &secec.ECDSAOptions{Hash: h, Encoding: enc, RejectMalleable: rng.Bool()})
+				if want {
+					w.Class("c07:hash-matrix:accept")
+				} else {
+					w.Class("c07:hash-matrix:reject")
+				}
+				if got != want {
+					w.Fail("c07/hash-matrix", fmt.Sprintf("Verify(%d-byte digest, Hash: %d (%d-byte digests), encoding %d) = %v for a signature valid for that digest, expected %v", l, int(h), size, int(enc), got, want),
+						"d", hb(d), "digest", hx(dig), "r", hb(r0), "s", hb(s0))
+				}
+			}
+		})
+	}
+
+	// --- key objects that come out of RecoverPublicKey and are kept: recover A, recover B
+	// (and verify through the recoverable encoding, which recovers internally), then use A
+	r.Require("c07:recovered-key:kept-across-recoveries")
+	r.Seq("c07/recovered-key", r.N(40, 1500), func(w *mon.W, i int) {
+		rng := w.Rng
+		type rec struct {
+			d          *big.Int
+			dig        []byte
+			r, s       *big.Int
+			v          int
+			key        *secec.PublicKey
+			der, crsig []byte
+		}
+		mk := func() *rec {
+			d, _ := keyValue(rng)
+			dig := rng.Bytes(32)
+			r0, s0, v0, _, _ := oracle.RFC6979Sign(d, dig)
+			k, err := secec.RecoverPublicKey(dig, scalarFromBig(r0), scalarFromBig(s0), byte(v0))
+			if err != nil {
+				w.Fail("c07/recovered-key:recover", "RecoverPublicKey failed for an honest signature: "+err.Error(), "d", hb(d))
+				return nil
+			}
+			return &rec{d, dig, r0, s0, v0, k, oracle.DERWriteSig(r0, s0), append(append(b32(r0), b32(s0)...), byte(v0))}
+		}
+		n := 2 + rng.Intn(4)
+		var recs []*rec
+		for j := 0; j < n; j++ {
+			x := mk()
+			if x == nil {
+				return
+			}
+			recs = append(recs, x)
+			if rng.Bool() {
+				// a verification through the recoverable encoding in between
+				y := recs[rng.Intn(len(recs))]
+				_ = y.key.Verify(y.dig, y.crsig, &secec.ECDSAOptions{Encoding: secec.EncodingCompactRecoverable})
+			}
+		}
+		w.Case(true, []byte("recovered-key"), []byte{byte(n)}, recs[0].dig)
+		w.Class("c07:recovered-key:kept-across-recoveries")
+		for j, x := range recs {
+			Q := oracle.MulG(x.d)
+			if !bytes.Equal(x.key.Bytes(), oracle.EncodeUncompressed(Q)) || !bytes.Equal(x.key.Point().UncompressedBytes(), oracle.EncodeUncompressed(Q)) {
+				w.Fail("c07/recovered-key:point", fmt.Sprintf("key %d of %d recovered in a row no longer holds its point: Bytes %x, Point %x, expected %x", j, n, x.key.Bytes(), x.key.Point().UncompressedBytes(), oracle.EncodeUncompressed(Q)))
+				return
+			}
+			for k, y := range recs {
+				want := x.d.Cmp(y.d) == 0 // the key classes repeat: two of the recovered keys may be the same key
+				if got := x.key.Verify(y.dig, y.der, nil); got != want {
+					w.Fail("c07/recovered-key:verify", fmt.Sprintf("key %d (recovered, then kept while %d more keys were recovered).Verify(signature %d) = %v, expected %v", j, n-1-j, k, got, want), "d", hb(x.d))
+					return
+				}
+				if got := x.key.VerifyRaw(y.dig, scalarFromBig(y.r), scalarFromBig(y.s)); got != want {
+					w.Fail("c07/recovered-key:verifyraw", fmt.Sprintf("key %d (recovered, kept).VerifyRaw(signature %d) = %v, expected %v", j, k, got, want), "d", hb(x.d))
+					return
+				}
+			}
+		}
+	})
+
 	runColdStart(r, "c07", r.N(18, 300), "verify", "btcverify", "recover")
 	// results that are functions of the arguments alone do not depend on the process-wide system entropy stream
 	runDegradedEntropy(r, "c07", r.N(20, 300), "verify")
